@@ -41,6 +41,7 @@ def run(ctx):
     rule_text(ctx, mod, ci)
     rule_bounds(ctx, mod, ci)
     rule_ctor_bounds(ctx, mod, ci)
+    rule_both_sources(ctx, mod, ci)
     rule_hz(ctx, mod, ci)
     rule_helmholtz(ctx, mod, ci)
     ctx.floor("R-C10-1", 8)
@@ -335,6 +336,35 @@ def rule_bounds(ctx, mod, ci):
                     ok = bool(paths) and all(p.kind == "raise" and p.value == "ValueError" for p in paths)
                     why = "a %s %s the range passes set_note (%s): %s" % (attr, label, via, [(p.kind, p.value) for p in paths])
                 ctx.check(ok, R, "set_note.%s.%s.%s" % (kw, via, label), fs.where(), "set_note('C', 4, %s=<%s> via %s)" % (kw, label, via), why)
+
+
+def rule_both_sources(ctx, mod, ci):
+    """The same quantity given twice, by keyword and in the deprecated dict: a value outside the range is rejected
+    whichever of the two would have won, and the note is left alone."""
+    R = "R-C10-4"
+    init, fs = _method(ctx, ci, "__init__"), _method(ctx, ci, "set_note")
+    for attr, hi in (("velocity", 127), ("channel", 15)):
+        for bad_in in ("keyword", "dict"):
+            for side, sym in (("above", Sym(attr, hi + 1, INF)), ("below", Sym(attr, -INF, -1))):
+                good = 3
+                kwv, dv = (Lin.of(sym), good) if bad_in == "keyword" else (good, Lin.of(sym))
+                before = {"name": "D", "octave": 5, "velocity": 10, "channel": 2}
+                for entry, fi, mk in (("set_note", fs, lambda dv=dv, attr=attr: [note_obj(ci, **before), "C", 4, {attr: dv}]),
+                                      ("Note(name)", init, lambda dv=dv, attr=attr: [note_obj(ci), "C", 4, {attr: dv}]),
+                                      ("Note(int)", init, lambda dv=dv, attr=attr: [note_obj(ci), 61, 4, {attr: dv}])):
+                    try:
+                        paths = paths_of(ctx.repo, fi, mk, kwargs={attr: kwv})
+                    except CannotDecide as e:
+                        raise AnalysisError("%s with %s twice: %s" % (entry, attr, e))
+                    ok = bool(paths) and all(p.kind == "raise" and p.value == "ValueError" for p in paths)
+                    why = "a %s %s the range given by %s (the other source gives %d) yields %s instead of ValueError" % (
+                        attr, side, bad_in, good, [(p.kind, short(repr(p.value), 40)) for p in paths])
+                    if ok and entry == "set_note":
+                        for p in paths:
+                            after = {k: p.interp.args[0].attrs.get(k) for k in before}
+                            if after != before:
+                                ok, why = False, "the request is rejected but the note has changed from %s to %s" % (before, after)
+                    ctx.check(ok, R, "%s.%s.twice[bad %s %s]" % (entry, attr, bad_in, side), fi.where(), "%s(..., {%r: x}, %s=y) with the %s value %s the range" % (entry, attr, attr, bad_in, side), why)
 
 
 def rule_ctor_bounds(ctx, mod, ci):
